@@ -50,6 +50,27 @@ def _model_assignment(model, env):
     return asg
 
 
+def nested_closure(it, con, fn, case):
+    """Closure for the nested def `con.nested` (a path of names) inside the real function `fn`"""
+    import ast as _ast
+
+    from . import loader
+    from .values import Closure
+
+    src = loader.from_code(fn.__code__)
+    node = src.node
+    for name in con.nested:
+        found = [n for n in _ast.walk(node) if isinstance(n, (_ast.FunctionDef, _ast.AsyncFunctionDef)) and n.name == name and n is not node]
+        if len(found) != 1:
+            raise I.OutsideSubset(f"nested function {name} not found exactly once in {fn.__qualname__}")
+        node = found[0]
+    free = case.nested_env(it) if getattr(case, "nested_env", None) else {}
+    frame = I.Frame(dict(free), None, fn.__globals__, fn.__qualname__)
+    defaults = [it.eval(d, frame) for d in node.args.defaults]
+    kwdefaults = {a.arg: it.eval(d, frame) for a, d in zip(node.args.kwonlyargs, node.args.kw_defaults) if d is not None}
+    return Closure(node, frame, f"{fn.__qualname__}.<locals>.{'.'.join(con.nested)}", defaults, kwdefaults)
+
+
 def verify_case(con: C.Contract, case: C.Case, timeout_ms=10000) -> CaseReport:
     rep = CaseReport(con.qual, case)
     t0 = time.time()
@@ -79,7 +100,12 @@ def verify_case(con: C.Contract, case: C.Case, timeout_ms=10000) -> CaseReport:
         if getattr(case, "setup", None) is not None:
             case.setup(it, ctx, args1, env)
         try:
-            rv = it.interpret_function(fn, args1, kw1)
+            if getattr(con, "nested", None) is not None:
+                # the function under contract is a nested def of `fn`: its AST is taken from fn's source and
+                # run as a closure whose free variables are provided by the contract (con.nested_env)
+                rv = it.call_closure(nested_closure(it, con, fn, case), args1, kw1)
+            else:
+                rv = it.interpret_function(fn, args1, kw1)
             real = ("return", rv)
         except PyExc as e:
             real = ("raise", e.cls)
